@@ -39,12 +39,21 @@ def call(ev: dict) -> dict:
             narrow = {"default": int, "swapped": np.int32, "strided": np.int8, "grown": np.int16}[bind.get_layout()]
             sdt = narrow if all(x <= 127 for x in a["shape"]) else int
             subs = bind.lay(np.array(a["subs"], dtype=sdt).reshape(len(a["subs"]), len(a["shape"])))
-            r = u.tt_sub2ind(tuple(a["shape"]), subs)
+            # the last-index-fastest numbering of the mirrored problem is the same question (rotated with the layout)
+            if bind.get_layout() in ("swapped", "grown") and len(a["shape"]) >= 1 and len(a["subs"]):
+                r = u.tt_sub2ind(tuple(a["shape"])[::-1], bind.lay(np.ascontiguousarray(subs[:, ::-1])), order="C")
+            else:
+                r = u.tt_sub2ind(tuple(a["shape"]), subs)
             return {"st": "ok", "idx": [bind.num(x) for x in np.asarray(r).reshape(-1)]}
         if op == "ind2sub":
             narrow = {"default": int, "swapped": np.int32, "strided": np.int8, "grown": np.int16}[bind.get_layout()]
             idt = narrow if all(abs(x) <= 127 for x in a["idx"]) else int
-            r = u.tt_ind2sub(tuple(a["shape"]), bind.lay(np.array(a["idx"], dtype=idt)))
+            if bind.get_layout() in ("swapped", "grown") and len(a["shape"]) >= 1:
+                r = u.tt_ind2sub(tuple(a["shape"])[::-1], bind.lay(np.array(a["idx"], dtype=idt)), order="C")
+                r = np.asarray(r)
+                r = r[:, ::-1] if r.ndim == 2 else r
+            else:
+                r = u.tt_ind2sub(tuple(a["shape"]), bind.lay(np.array(a["idx"], dtype=idt)))
             r = np.asarray(r)
             if r.ndim != 2:
                 return {"st": "bad-result-layout"}
